@@ -203,7 +203,7 @@ Mutated mutate(const Config &cfg, const Line &valid) {
   std::vector<std::string> kinds = {"unknown_short", "unknown_long", "ambiguous_or_unknown_prefix", "drop_mandatory", "missing_value",
                                     "duplicate_use", "bad_value", "check_violation", "excluded_after_excluder", "missing_required",
                                     "all_of_partial", "any_of_two", "one_of_none", "one_of_two", "differ_equal", "disjoint_common",
-                                    "unique_duplicate", "fixed_overflow", "tuple_short", "bitset_range", "deprecated_use", "too_few_values"};
+                                    "unique_duplicate", "fixed_overflow", "tuple_short", "bitset_range", "deprecated_use", "too_few_values", "stray_value"};
   m.name = oneOf(kinds);
   auto usesOf = [&](int a) { std::vector<size_t> v; for (size_t i = 0; i < m.line.size(); ++i) if (m.line[i].arg == a) v.push_back(i); return v; };
   auto insertAt = [&](const Use &u) { size_t p = *range<size_t>(0, m.line.size()); m.line.insert(m.line.begin() + static_cast<long>(p), u); };
@@ -222,6 +222,19 @@ Mutated mutate(const Config &cfg, const Line &valid) {
     for (char ch = 'a'; ch <= 'z'; ++ch) { bool usedc = false; for (auto &a : cfg.args) if (a.shortKey == ch) usedc = true; for (char b : builtinShortKeys(cfg.flags)) if (b == ch) usedc = true; if (!usedc) fresh.push_back(ch); }
     Use u; u.keyText = std::string(1, oneOf(fresh)); u.hasValue = pick(30); if (u.hasValue) u.elems = {"5"};
     insertAt(u); m.ok = true;
+  } else if (n == "stray_value") {
+    // a value word that no argument asked for: at the start, or behind an argument that does not take multiple values
+    std::vector<size_t> pos;
+    for (size_t i = 0; i <= m.line.size(); ++i) {
+      if (i > 0 && m.line[i - 1].arg >= 0 && cfg.args[m.line[i - 1].arg].multiValue) continue;
+      if (i > 0 && m.line[i - 1].arg >= 0 && !m.line[i - 1].hasValue && sk[cfg.args[m.line[i - 1].arg].slot] != K_FLAG) continue;   // would become the optional value
+      pos.push_back(i);
+    }
+    if (!pos.empty()) {
+      Use u; u.hasValue = true; u.rawValue = true; u.elems = {pick(50) ? std::to_string(*range<int>(0, 99)) : genString(1, 4, "abcxyz")};
+      m.line.insert(m.line.begin() + static_cast<long>(oneOf(pos)), u);
+      m.ok = true;
+    }
   } else if (n == "unknown_long") {
     Use u; u.keyText = "zz" + genString(0, 4, "qwz"); u.hasValue = pick(30); if (u.hasValue) u.elems = {"5"};
     insertAt(u); m.ok = true;
